@@ -81,6 +81,8 @@ static void body(void *arg) { int t = (int)(intptr_t)arg; for (int i = 0; i < 3 
 
 /* ---- sequential model ---- */
 static int sort_dir;      /* +1 ascending, -1 descending: the statement only asks for "ordered" */
+static int relax_sort_null;   /* second pass only: a pop may return NULL on a non-empty list when it overlaps a parsec_list_sort (candidate finding) */
+static int overlaps_sort(const op_t *o) { for (int j = 0; j < nops; j++) if (&ops[j] != o && ops[j].type == O_SORT && ops[j].call < o->ret && o->call < ops[j].ret) return 1; return 0; }
 static void m_ins(int *m, int *n, int pos, int id) { for (int i = *n; i > pos; i--) m[i] = m[i - 1]; m[pos] = id; ++*n; }
 static void m_ins_sorted(int *m, int *n, int id) { int pos = 0; while (pos < *n && prio_of[m[pos]] >= prio_of[id]) pos++; m_ins(m, n, pos, id); }
 static int overlaps_other(const op_t *o) { for (int j = 0; j < nops; j++) if (&ops[j] != o && ops[j].call < o->ret && o->call < ops[j].ret) return 1; return 0; }
@@ -93,8 +95,8 @@ static int seq_check(const int *order, int n, void *ctx)
         switch (o->type) {
         case O_PUSHF: case O_DQ_PUSHF: m_ins(m, &mn, 0, o->a); break;
         case O_PUSHB: case O_FIFO_PUSH: case O_DQ_PUSHB: m_ins(m, &mn, mn, o->a); break;
-        case O_POPF: case O_FIFO_POP: case O_DQ_POPF: { int e = mn ? m[0] : -1; if (e != o->res) return 0; if (mn) { memmove(m, m + 1, sizeof(int) * (mn - 1)); mn--; } } break;
-        case O_POPB: case O_DQ_POPB: { int e = mn ? m[mn - 1] : -1; if (e != o->res) return 0; if (mn) mn--; } break;
+        case O_POPF: case O_FIFO_POP: case O_DQ_POPF: if (relax_sort_null && o->res == -1 && overlaps_sort(o)) break; { int e = mn ? m[0] : -1; if (e != o->res) return 0; if (mn) { memmove(m, m + 1, sizeof(int) * (mn - 1)); mn--; } } break;
+        case O_POPB: case O_DQ_POPB: if (relax_sort_null && o->res == -1 && overlaps_sort(o)) break; { int e = mn ? m[mn - 1] : -1; if (e != o->res) return 0; if (mn) mn--; } break;
         case O_TRYPOPF: case O_FIFO_TRYPOP: case O_TRYPOPB:
             if (o->res == -1) { if (mn != 0 && !overlaps_other(o)) return 0; }      /* documented: NULL when empty or when another thread holds the lock */
             else if (o->type == O_TRYPOPB) { int e = mn ? m[mn - 1] : -1; if (e != o->res) return 0; mn--; }
@@ -163,8 +165,16 @@ static void run_scen(const scen_t *s)
     o += snprintf(buf + o, sizeof(buf) - o, "| final:");
     for (int i = 0; i < nfinal; i++) o += snprintf(buf + o, sizeof(buf) - o, " %d", final_list[i]);
     cs_span_t sp[MAXOPS]; for (int k = 0; k < nops; k++) { sp[k].call = ops[k].call; sp[k].ret = ops[k].ret; }
+    relax_sort_null = 0;
     sort_dir = 1; int lin = cs_linearizable(sp, nops, seq_check, NULL);
     if (!lin) { sort_dir = -1; lin = cs_linearizable(sp, nops, seq_check, NULL); }
+    if (!lin) {   /* is it exactly the candidate finding (pop sees the list empty while a locked sort has it unhooked)? */
+        relax_sort_null = 1; int lin2 = 0;
+        for (sort_dir = 1; sort_dir >= -1 && !lin2; sort_dir -= 2) lin2 = cs_linearizable(sp, nops, seq_check, NULL);
+        relax_sort_null = 0;
+        if (lin2 && getenv("C31_KNOWN_SORT_EMPTY")) { cs_known("C31-sort-hides-items-from-unlocked-empty-test: %s", buf); cs_observe("known:%s", buf); return; }
+        if (lin2) cs_fail("pop returned NULL on a list that is never empty: its unlocked emptiness test ran while a locked parsec_list_sort had unhooked all items: %s", buf);
+    }
     CS_CHECK(lin, "history not linearizable w.r.t. a sequential list (stable sorted insertion): %s", buf);
     cs_observe("%s", buf);
 }
@@ -182,22 +192,23 @@ static const scen_t scens[] = {
     { "dequeue_2x2", { 1, 1, 1, 1, 1, 1 }, 1, { 0 }, 2, { { { O_DQ_PUSHF, 1, -1 }, { O_DQ_POPB, -1, -1 }, E }, { { O_DQ_PUSHB, 2, -1 }, { O_DQ_POPF, -1, -1 }, E } } },
     { "isempty_pushf_popf", { 1, 1, 1, 1, 1, 1 }, 0, { 0 }, 3, { { { O_ISEMPTY, -1, -1 }, E }, { { O_PUSHF, 0, -1 }, E }, { { O_POPF, -1, -1 }, { O_ISEMPTY, -1, -1 }, E } } },
     { "sort_pushb_pushf", { 1, 3, 2, 4, 0, 5 }, 3, { 0, 1, 2 }, 3, { { { O_SORT, -1, -1 }, E }, { { O_PUSHB, 3, -1 }, E }, { { O_PUSHF, 4, -1 }, E } } },
-#ifdef WITH_SORT_POPF
     { "sort_popf", { 1, 3, 2, 4, 0, 5 }, 3, { 0, 1, 2 }, 2, { { { O_SORT, -1, -1 }, E }, { { O_POPF, -1, -1 }, E } } },
-#endif
 };
 #define NSCEN ((int)(sizeof(scens) / sizeof(scens[0])))
 #define R(i) static void r##i(void) { run_scen(&scens[i]); }
 R(0) R(1) R(2) R(3) R(4) R(5) R(6) R(7) R(8) R(9) R(10)
-#ifdef WITH_SORT_POPF
 R(11)
-#endif
 static cs_scenario_t scenarios[] = {
     { "pushf_pushb_popf", r0, 0 }, { "popf_popb_pushb_single", r1, 0 }, { "pushsorted_ties_popf", r2, 0 }, { "chainsorted_popb_pushsorted", r3, 0 },
     { "chainf_chainb_unchain", r4, 0 }, { "trypopf_trypopb_pushb", r5, 0 }, { "fifo_push2_pop2", r6, 0 }, { "fifo_chain_trypop_pop", r7, 0 },
     { "dequeue_2x2", r8, 0 }, { "isempty_pushf_popf", r9, 0 }, { "sort_pushb_pushf", r10, 0 },
-#ifdef WITH_SORT_POPF
     { "sort_popf", r11, 0 },
-#endif
 };
-int main(int argc, char **argv) { return cs_main(argc, argv, "C31", scenarios, sizeof(scenarios) / sizeof(scenarios[0]), NULL); }
+int main(int argc, char **argv)
+{
+    /* the quick tier caps the preemption bound of the three longest scripts (69-101 points per execution) */
+    const char *cap = getenv("C31_CAP_HEAVY");
+    if (cap) for (unsigned k = 0; k < sizeof(scenarios) / sizeof(scenarios[0]); k++)
+        if (!strcmp(scenarios[k].name, "chainsorted_popb_pushsorted") || !strcmp(scenarios[k].name, "chainf_chainb_unchain") || !strcmp(scenarios[k].name, "sort_pushb_pushf")) scenarios[k].max_bound = atoi(cap);
+    return cs_main(argc, argv, "C31", scenarios, sizeof(scenarios) / sizeof(scenarios[0]), NULL);
+}
